@@ -9,17 +9,78 @@ from vlib.hyp import Chooser
 PID = "C11"
 RULE = ("Generated relations R(key..., cost...) declared btree_delete with subsumptive clauses `R(k,c1) <= R(k,c2) :- <strict order>`: "
         "same key (0-2 key columns) and a strict order on 1-2 cost columns (smaller wins / larger wins / lexicographic over two "
-        "columns, expressed by two subsumptive clauses), irreflexive and transitive by construction. Two families: monotone cost "
+        "columns, expressed by two subsumptive clauses), irreflexive and transitive by construction. Three families: monotone cost "
         "programs (smaller wins; recursive rules update the cost by c+w or max(c,w), w >= 0, under the downward-closed guard "
-        "c < CAP over a random weighted graph -- shortest-distance style) and unrestricted ones (either direction, extra "
-        "non-recursive rules). U := reference evaluation (dlref) of the program WITHOUT the subsumptive clauses. Oracle: (1) no final "
+        "c < CAP over a random weighted graph -- shortest-distance style), unrestricted ones (either direction, extra "
+        "non-recursive rules) and 'offers' (35%: a non-recursive relation of 20-900 tuples over 0-2 key and 1-2 cost columns fed from "
+        "a fact file (.input), inline facts, a copy rule or a mix, in ascending/descending/shuffled order; bulk tuples expanded from "
+        "one generated seed; U = the supplied tuples, expectation exact: R == the non-dominated tuples of U). U := reference evaluation (dlref) of the program WITHOUT the subsumptive clauses. Oracle: (1) no final "
         "tuple is dominated by another final tuple; (2) R is a subset of U; (3) the interpreter's R at -j1 equals R at -jN (N in "
         "{2,4,8}, perturbation hook on) [compiled mode in the thorough tier]; (4) monotone family: R == minimal elements of U. "
-        "Non-trivial = U has a key with >= 3 comparable tuples, |R| < |U| and the defining rules are recursive; distinct by hash "
+        "Non-trivial = U has a key with >= 3 comparable tuples and |R| < |U|; distinct by hash "
         "of (program, args).")
 
 
+def gen_offers(ch):
+    """'cheapest offer per key': a large, non-recursive subsumptive relation fed from a fact file, inline facts and/or a rule, so
+    that the erase paths of the underlying B-tree (several nodes, rebalancing, merging) are exercised. The bulk data is expanded
+    from one generated seed (a pure function of the draw), everything else is drawn individually."""
+    import random
+    nkeys = ch.choice([1, 1, 2, 0])
+    ncost = ch.choice([1, 1, 2])
+    smaller = ch.bool(0.5)
+    n = ch.choice([ch.int(20, 120), ch.int(120, 400), ch.int(400, 900)])
+    kdom = max(1, n // ch.choice([1, 2, 4, 8, 30]))
+    cdom = ch.choice([3, 8, 40, 1000])
+    rnd = random.Random(ch.int(0, (1 << 30) - 1))
+    arity = nkeys + ncost
+    tuples = set()
+    for _ in range(n):
+        if nkeys == 2:
+            k = rnd.randrange(kdom)
+            key = (k % 7, k // 7)
+        else:
+            key = (rnd.randrange(kdom),) * nkeys
+        tuples.add(key + tuple(rnd.randrange(cdom) for _ in range(ncost)))
+    tuples = sorted(tuples)
+    order = ch.choice(["asc", "desc", "shuffled"])
+    if order == "desc":
+        tuples.reverse()
+    elif order == "shuffled":
+        rnd.shuffle(tuples)
+    source = ch.choice(["input", "input", "inline", "rule", "mixed"])
+    parts = {"input": [], "inline": [], "rule": []}
+    for t in tuples:
+        parts[source if source != "mixed" else rnd.choice(["input", "inline", "rule"])].append(t)
+    cols = ", ".join("a%d:number" % i for i in range(arity))
+    vs = ", ".join("v%d" % i for i in range(arity))
+    text = [".decl r(%s) btree_delete" % cols, ".output r"]
+    facts = {}
+    if source in ("input", "mixed"):
+        text.append(".input r")
+        facts["r.facts"] = "".join("\t".join(map(str, t)) + "\n" for t in parts["input"])
+    text += ["r(%s)." % ", ".join(map(str, t)) for t in parts["inline"]]
+    if source in ("rule", "mixed"):
+        text += [".decl e(%s)" % cols, ".input e", "r(%s) :- e(%s)." % (vs, vs)]
+        facts["e.facts"] = "".join("\t".join(map(str, t)) + "\n" for t in parts["rule"])
+    ks = ["k%d" % i for i in range(nkeys)]
+    lt = "<" if smaller else ">"
+    if ncost == 1:
+        text.append("r(%s) <= r(%s) :- c2 %s c1." % (", ".join(ks + ["c1"]), ", ".join(ks + ["c2"]), lt))
+    else:
+        text.append("r(%s) <= r(%s) :- c2 %s c1." % (", ".join(ks + ["c1", "d1"]), ", ".join(ks + ["c2", "d2"]), lt))
+        text.append("r(%s) <= r(%s) :- d2 %s d1." % (", ".join(ks + ["c1", "d1"]), ", ".join(ks + ["c1", "d2"]), lt))
+    text += [".decl q(c:number)", ".output q", "q(c) :- r(%s)." % ", ".join(["_"] * nkeys + ["c"] + ["_"] * (ncost - 1))]
+    j = ch.choice([2, 4, 8])
+    env = {"SOUFFLE_VERIF_PERTURB": str(ch.int(1, 1 << 20))} if ch.bool(0.5) else {}
+    return {"program": "\n".join(text) + "\n", "facts": facts, "nkeys": nkeys, "ncost": ncost, "smaller": smaller, "mono": True,
+            "family": "offers", "source": source, "order": order, "n": len(tuples),
+            "base": {"args": ["-j1"]}, "variant": {"args": ["-j%d" % j], "env": env}, "_U": set(tuples)}
+
+
 def gen(ch):
+    if ch.bool(0.35):
+        return gen_offers(ch)
     P = Program()
     dom = ch.int(3, 6)
     mono = ch.bool(0.6)
@@ -108,20 +169,25 @@ def dominated(t, u, nkeys, smaller):
 
 
 def judge(case, st=None):
-    P = case.get("_P") or gen(Chooser(trace=case["trace"]))["_P"]
-    pub = {k: v for k, v in case.items() if k != "_P"}
-    try:
-        db, rs = dlref.evaluate(P, dlref.Budget(steps=600000, tuples=6000, rounds=200))
-    except OutOfDomain as ex:
-        raise Discard("ood:" + str(ex).split(":")[0])
-    U = db["r"]
+    full = case if ("_P" in case or "_U" in case) else gen(Chooser(trace=case["trace"]))
+    pub = {k: v for k, v in case.items() if k not in ("_P", "_U")}
+    if "_U" in full:
+        U = full["_U"]
+        types = [NUMBER] * (case["nkeys"] + case["ncost"])
+    else:
+        P = full["_P"]
+        try:
+            db, rs = dlref.evaluate(P, dlref.Budget(steps=600000, tuples=6000, rounds=200))
+        except OutOfDomain as ex:
+            raise Discard("ood:" + str(ex).split(":")[0])
+        U = db["r"]
+        types = P.rels["r"].types
     a = runner.run_cfg(case, case["base"], timeout=60)
     runner.classify_failure(a, "-j1", pub)
     b = runner.run_cfg(case, case["variant"], timeout=60)
     runner.classify_failure(b, "variant", pub)
     msgs = runner.compare_outputs(a.outputs, b.outputs, la="-j1", lb=case["variant"]["args"][0])
     nk, sm = case["nkeys"], case["smaller"]
-    types = P.rels["r"].types
     for label, res in (("-j1", a), (case["variant"]["args"][0], b)):
         lines = res.outputs.get("r")
         if lines is None:
@@ -140,7 +206,11 @@ def judge(case, st=None):
         if notu:
             msgs.append("%s: tuples not derivable without subsumption: %r" % (label, notu))
         if case["mono"]:
-            minimal = {t for t in U if not any(dominated(t, u, nk, sm) for u in U)}
+            best = {}
+            for t in U:   # dominance is a strict total order inside a key: the per-key extremum is the only survivor
+                if t[:nk] not in best or dominated(best[t[:nk]], t, nk, sm):
+                    best[t[:nk]] = t
+            minimal = set(best.values())
             if Rset != minimal:
                 msgs.append("%s: monotone cost program, result differs from the minimal tuples of the unsubsumed result: missing %r extra %r" % (
                     label, sorted(minimal - Rset)[:5], sorted(Rset - minimal)[:5]))
@@ -153,7 +223,10 @@ def judge(case, st=None):
             perkey[t[:nk]] = perkey.get(t[:nk], 0) + 1
         if perkey and max(perkey.values()) >= 3 and nR < len(U):
             st.nontrivial.add(common.h(case["program"] + repr(case["variant"])))
-            st.classes["monotone" if case["mono"] else "unrestricted"] += 1
+            st.classes[case.get("family") or ("monotone" if case["mono"] else "unrestricted")] += 1
+            if case.get("family") == "offers":
+                st.classes["offers:source=%s" % case["source"]] += 1
+                st.classes["offers:n>=%d" % (400 if case["n"] >= 400 else 120 if case["n"] >= 120 else 0)] += 1
             st.classes["keys=%d,costs=%d" % (nk, case["ncost"])] += 1
             st.sample({"program": case["program"], "variant": case["variant"], "unsubsumed_size": len(U), "result_size": nR})
         else:
